@@ -280,15 +280,17 @@ func init() {
 }
 
 func (e *Exec) timeNow() value {
-	name := e.freshName("t_now")
+	// wall clock: an arbitrary whole-millisecond instant between 2001 and 2100, non-decreasing
+	// within a path (sub-millisecond readings are outside the model)
+	name := e.freshName("t_nowms")
 	e.declare(name, "(_ BitVec 64)")
-	// wall clock: between 2001 and 2200, non-decreasing within a path
-	e.addPC("(and (bvsge " + name + " " + bvConst(1000000000_000000000, 64) + ") (bvsle " + name + " " + bvConst(7258118400_000000000, 64) + "))")
+	e.Stats.Assumptions["time.Now() readings are arbitrary whole-millisecond instants between 2001 and 2100, non-decreasing within an execution"] = true
+	e.addPC("(and (bvsge " + name + " " + bvConst(1000000000_000, 64) + ") (bvsle " + name + " " + bvConst(4102444800_000, 64) + "))")
 	if e.lastNow != "" {
 		e.addPC("(bvsge " + name + " " + e.lastNow + ")")
 	}
 	e.lastNow = name
-	return timeVal{symBV{name, 64}}
+	return timeVal{e.i64(token.MUL, symBV{name, 64}, int64(1e6))}
 }
 
 // timeDiv divides a nanosecond count by a positive constant with floor semantics (Go's
@@ -364,7 +366,8 @@ func (e *Exec) divTerm(x string, c int64) string {
 		e.solver.lowered[key] = true
 		cq := "(bvmul " + bvConst(c, 64) + " " + q + ")"
 		// |x| < 2^62 is assumed for these axioms to be overflow free
-		e.solver.send(fmt.Sprintf("(assert (=> (and (bvslt %s #x4000000000000000) (bvsgt %s #xc000000000000000)) (and (bvsle %s %s) (bvslt (bvsub %s %s) %s) (bvslt %s #x4000000000000000) (bvsgt %s #xc000000000000000))))", x, x, cq, x, x, cq, bvConst(c, 64), q, q))
+		lim := (int64(1) << 62) / c
+		e.solver.send(fmt.Sprintf("(assert (=> (and (bvslt %s #x4000000000000000) (bvsgt %s #xc000000000000000)) (and (bvsle %s %s) (bvslt (bvsub %s %s) %s) (bvsle %s %s) (bvsge %s %s))))", x, x, cq, x, x, cq, bvConst(c, 64), q, bvConst(lim, 64), q, bvConst(-lim-1, 64)))
 	}
 	return q
 }
